@@ -407,7 +407,14 @@ func ruleTIMEVAL(p *Program) *RuleResult {
 					an := newAnalyzer()
 					an.maxBlocks = 300
 					an.maxDepth = 6
-					an.globalMaps = maps
+					merged := map[string]map[string]aval{}
+					for k, v := range an.globalMaps {
+						merged[k] = v
+					}
+					for k, v := range maps {
+						merged[k] = v
+					}
+					an.globalMaps = merged
 					an.callModel = decimalModel
 					res := an.analyze(fn, []aval{recv, {k: kStruct, elems: []aval{qv, cStr(unit)}}})
 					ck := cellKey{e.typ + "." + op, e.layout, strings.TrimSuffix(unit, "s")}
